@@ -236,9 +236,12 @@ let handle kind c =
              (let s = show_obs spec in if String.length s > 300 then String.sub s 0 300 else s))
     end
   | "race" ->
+    let kind = next c in
     let meta = next_bytes c in
     let _present = next c in
-    let init = next_bytes c in
+    let init_tok = next c in
+    let init = bytes_of_tok init_tok in
+    let init_recs = if List.length init >= 16384 then records_map (spec_read init) else None in
     let w = next_int c in
     let progs = List.init w (fun _ ->
         next_list c (fun c ->
@@ -247,30 +250,63 @@ let handle kind c =
             let delta = next_n c in
             (add, name, delta))) in
     let sched = next_list c (fun c -> next_int c) in
+    let trace = List.map (fun _ -> let l = next_n c in let z = next_n c in (l, z)) sched in
     let results = List.init w (fun _ -> next_list c (fun c -> next c)) in
     let (final, final_sr) = read_file_tok c in
     let mprogs = List.map (List.map (fun (add, name, delta) -> if add then OpAdd (name, delta) else OpNew name)) progs in
-    (* model: the same schedule on the transition system of Model/LayoutMulti *)
-    (match race meta init mprogs (List.map nat_of_int sched) with
+    let msched = List.map nat_of_int sched in
+    let show_res wr_done wr_failed res pc_s =
+      if wr_done then "open" :: List.concat (List.map (fun r ->
+          match r with ROk o -> ["ok"; tok_of_n o] | r -> [res_to_string r]) res)
+      else if wr_failed then ["openfail"] else ["unfinished-at-pc-" ^ pc_s] in
+    (* model: the same schedule on the file-system-call transition system *)
+    (match grace meta init mprogs msched with
      | None -> diff "race-header" ~model:"no header for this metadata" ~impl:"-"
-     | Some st ->
-       if st.c_file <> final then
+     | Some (st, mtrace) ->
+       if st.g_file <> final then
          diff "race-file-bytes" ~model:(Printf.sprintf "first difference at offset %d (model len %d)"
-                                          (first_diff st.c_file final) (List.length st.c_file))
+                                          (first_diff st.g_file final) (List.length st.g_file))
            ~impl:(Printf.sprintf "len %d" (List.length final));
+       (* limit and size after every step (the limit word is meaningful once the first page exists) *)
+       List.iteri (fun i ((ml, mz), (l, z)) ->
+           if mz <> z || (int_of_n z >= 16384 && ml <> l) then
+             diff (Printf.sprintf "race-step%d" i) ~model:(show_pair (ml, mz)) ~impl:(show_pair (l, z)))
+         (List.combine mtrace trace);
        List.iteri (fun i (wr, res) ->
-           let ms =
-             match wr.c_pc with
-             | CDone -> "open" :: List.concat (List.map (fun r ->
-                 match r with ROk o -> ["ok"; tok_of_n o] | r -> [res_to_string r]) wr.c_res)
-             | CFailed -> ["openfail"]
-             | pc -> ["unfinished-at-pc-" ^ string_of_int (int_of_n (pc_tag pc))] in
+           let ms = show_res (wr.g_pc = GDone) (wr.g_pc = GFailed) wr.g_res (string_of_int (int_of_n (gpc_tag wr.g_pc))) in
            if ms <> res then
              diff (Printf.sprintf "race-writer%d" i) ~model:(String.concat " " ms) ~impl:(String.concat " " res))
-         (List.combine st.c_ws results));
+         (List.combine st.g_ws results));
+    (* the coarse model of C10_racing_creation (operations as single steps) where it applies *)
+    if kind = "create" then
+      (match race meta init mprogs msched with
+       | None -> ()
+       | Some st ->
+         if st.c_file <> final then
+           diff "race-coarse-file-bytes" ~model:(Printf.sprintf "first difference at offset %d" (first_diff st.c_file final))
+             ~impl:(Printf.sprintf "len %d" (List.length final));
+         List.iteri (fun i (wr, res) ->
+             let ms = show_res (wr.c_pc = CDone) (wr.c_pc = CFailed) wr.c_res (string_of_int (int_of_n (pc_tag wr.c_pc))) in
+             if ms <> res then
+               diff (Printf.sprintf "race-coarse-writer%d" i) ~model:(String.concat " " ms) ~impl:(String.concat " " res))
+           (List.combine st.c_ws results));
+    (* oracles on what the implementation did: at every step the limit does not
+       shrink and stays within the file *)
+    let prev = ref n0 in
+    List.iteri (fun i (l, z) ->
+        if int_of_n z >= 16384 then begin
+          if n_lt l !prev then
+            prop "limit-monotone" (Printf.sprintf "%d writers, schedule %s: after step %d the allocation limit is %s, it was %s"
+                                     w (String.concat "" (List.map string_of_int sched)) i (show_n l) (show_n !prev));
+          if n_lt z l then
+            prop "limit-le-size" (Printf.sprintf "%d writers, schedule %s: after step %d limit %s size %s"
+                                    w (String.concat "" (List.map string_of_int sched)) i (show_n l) (show_n z));
+          prev := l
+        end) trace;
     (* oracles on the real file: well-formed, limit within the file, and an
        independent reader finds every counter a writer was told it has *)
     let expect : (string, n) Hashtbl.t = Hashtbl.create 8 in
+    (match init_recs with Some l -> List.iter (fun (k, v) -> Hashtbl.replace expect k v) l | None -> ());
     let two64 = n_of_hex "10000000000000000" in
     List.iter2 (fun prog res ->
         match res with
@@ -287,7 +323,7 @@ let handle kind c =
         | _ -> ()) progs results;
     if List.length final >= 16384 then begin
       match final_sr with
-      | None -> prop "wf-file" (Printf.sprintf "%d writers creating one file: the result does not follow the v1 layout (%d bytes)" w (List.length final))
+      | None -> prop "wf-file" (Printf.sprintf "%d writers racing on one file: the result does not follow the v1 layout (%d bytes)" w (List.length final))
       | Some _ ->
         let lim = limit_of final in
         if n_lt (len final) lim then prop "limit-le-size" (Printf.sprintf "limit %s size %d" (show_n lim) (List.length final));
@@ -298,7 +334,7 @@ let handle kind c =
            let want = List.sort compare (Hashtbl.fold (fun k v acc -> (k, tok_of_n v) :: acc) expect []) in
            if got <> want then
              prop "readback"
-               (Printf.sprintf "%d writers creating one file, schedule %s: independent decoder reads %d records, the writers were told they wrote %d: read [%s] want [%s]"
+               (Printf.sprintf "%d writers racing on one file, schedule %s: independent decoder reads %d records, the writers were told they wrote %d: read [%s] want [%s]"
                   w (String.concat "" (List.map string_of_int sched)) (List.length got) (List.length want)
                   (clip300 (String.concat ";" (List.map (fun (k, v) -> String.escaped k ^ "=" ^ v) got)))
                   (clip300 (String.concat ";" (List.map (fun (k, v) -> String.escaped k ^ "=" ^ v) want)))))
